@@ -531,7 +531,8 @@ func (g *c15Gen) walkFunc(f *c15Func) {
 // handoffRetained: the function builds `o := &T{…, f: u, …}` from a local `u`, sends `o` on a channel
 // (plain send or select case), and a deferred closure of the same function still uses `u`: after the
 // hand-over the receiver owns `u`, so the deferred use is only ordered if every path from the send to the
-// function's exit first receives the receiver's reply.
+// function's exit first receives the receiver's reply: a function that receives `<-o.field` outside any
+// select is taken to do so.
 func (w *c15Walk) handoffRetained() {
 	parts := map[string][]string{} // object variable -> local variables stored in its literal
 	ast.Inspect(w.f.decl.Body, func(n ast.Node) bool {
@@ -572,6 +573,36 @@ func (w *c15Walk) handoffRetained() {
 		if s, ok := n.(*ast.SendStmt); ok {
 			if id, ok := s.Value.(*ast.Ident); ok && parts[id.Name] != nil {
 				sent[id.Name] = true
+			}
+		}
+		return true
+	})
+	// a reply awaited unconditionally (a receive `<-o.field` that is not a select case) after the send gives
+	// the object back before the function can exit
+	inSelect := map[ast.Node]bool{}
+	ast.Inspect(w.f.decl.Body, func(n ast.Node) bool {
+		if sel, ok := n.(*ast.SelectStmt); ok {
+			for _, c := range sel.Body.List {
+				if cc, ok := c.(*ast.CommClause); ok && cc.Comm != nil {
+					ast.Inspect(cc.Comm, func(m ast.Node) bool {
+						if m != nil {
+							inSelect[m] = true
+						}
+						return true
+					})
+				}
+			}
+		}
+		return true
+	})
+	ast.Inspect(w.f.decl.Body, func(n ast.Node) bool {
+		u, ok := n.(*ast.UnaryExpr)
+		if !ok || u.Op != token.ARROW || inSelect[u] {
+			return true
+		}
+		if se, ok := u.X.(*ast.SelectorExpr); ok {
+			if id, ok := se.X.(*ast.Ident); ok && sent[id.Name] {
+				delete(sent, id.Name)
 			}
 		}
 		return true
